@@ -18,7 +18,7 @@ def impl_topology(traces, area, t, route):
     from fractopo.branches_and_nodes import branches_and_nodes
 
     tr = gpd.GeoDataFrame(geometry=to_float_lines(traces))
-    ar = gpd.GeoDataFrame(geometry=[area])
+    ar = gpd.GeoDataFrame(geometry=list(area) if isinstance(area, (list, tuple)) else [area])
     if route == "direct":
         b, n = branches_and_nodes(tr, ar, t, already_clipped=False)
     elif route == "network":
@@ -51,7 +51,7 @@ def compare(ar: Arrangement, nodes, branches, t):
 def run_maps(ctx, maps, t, res, stream, routes=ROUTES, meta=None):
     for (traces, area, kind, ar) in maps:
         res.evaluations += 1
-        case = {"stream": stream, "t": t, "traces": lines(traces), "areas": area_rows([area]), "area_kind": kind, "meta": meta or {}}
+        case = {"stream": stream, "t": t, "traces": lines(traces), "areas": area_rows(list(area) if isinstance(area, (list, tuple)) else [area]), "area_kind": kind, "meta": meta or {}}
         cls = Counter(c for _, c in ar.nodes)
         for c, v in cls.items():
             res.distribution[f"node_{c}"] = res.distribution.get(f"node_{c}", 0) + v
